@@ -5,7 +5,7 @@ import time
 from . import qsrun
 from .kernel import HarnessError, rng_for, stable_hash
 from .qsmodel import CLASS2PROP
-from .runner import Stats, load_known, match_known
+from .runner import Stats, digest_dump, load_known, match_known
 
 COMPONENTS = {
     "real": ["qs.rpcserver.Server.handle_client (per-connection loop, reader greenlet, kill links, JSON framing)",
@@ -50,6 +50,7 @@ def qs_worker(prop, seed, widx, nworkers, plan, scratch, allow_restart=False, ru
         rng, cfg = draw_run(seed, prop, i, allow_restart)
         res = qsrun.run_generated(scratch, rng, cfg, run_cls=run_cls)
         n += 1
+        digest_dump(i, res["digest"])
         st["runs"] += 1
         st["events"] += res["events"]
         st["quanta"] += res["quanta"]
